@@ -8,6 +8,8 @@ from models import lru_model as M
 cu = None            # boltons.cacheutils
 CU_FILE = None       # its source path (the traced file)
 _REAL_LOCK_TYPES = ()
+_ORIG_LOCK_FACTORY = None
+_REAL_LOCK_FACTORIES = (None, None)
 
 
 def setup(root):
@@ -17,6 +19,16 @@ def setup(root):
     cu = m
     CU_FILE = m.__file__
     _REAL_LOCK_TYPES = (type(threading.RLock()), type(threading.Lock()))
+    global _ORIG_LOCK_FACTORY, _REAL_LOCK_FACTORIES
+    _ORIG_LOCK_FACTORY = getattr(m, 'RLock', None)
+    _REAL_LOCK_FACTORIES = (threading.RLock, threading.Lock)
+
+    def tiny():
+        c = m.LRU(max_size=1)
+        c['x'] = 1
+        c['y'] = 2
+    threadsim.install(m)
+    threadsim.selfcheck(tiny)
 
 
 # -- codecs ----------------------------------------------------------------------
@@ -94,7 +106,12 @@ def make_cache(case, ctx, sched=None):
     """Build the cache under test with every lock replaced by a simulated one."""
     cls = getattr(cu, case['cls'])
     if sched is not None:
-        cu.RLock = lambda *a, **k: threadsim.SimRLock(sched)
+        # the lock seam: whatever factory the module bound to the name RLock is replaced by
+        # the simulated lock of the same kind (a plain Lock stays non re-entrant)
+        if _ORIG_LOCK_FACTORY is _REAL_LOCK_FACTORIES[1]:
+            cu.RLock = lambda *a, **k: threadsim.SimLock(sched)
+        else:
+            cu.RLock = lambda *a, **k: threadsim.SimRLock(sched)
     try:
         c = cls(max_size=case['max_size'], on_miss=ctx.make_on_miss(case.get('on_miss', 'none')))
     finally:
